@@ -76,6 +76,9 @@ type Program struct {
 	Decos []Deco    `json:"decos"`
 	Body  []*Node   `json:"body"`
 	Pats  []Pattern `json:"pats"`
+	// ConstDup (MtailMut class 8): a pattern constant of this name is declared after the metrics and used in one
+	// pattern concatenation at the end of the program
+	ConstDup string `json:"constdup,omitempty"`
 }
 
 type Line struct {
@@ -455,6 +458,9 @@ func Render(p *Program, o RenderOpts) (string, error) {
 			}
 		}
 	}
+	if p.ConstDup != "" {
+		b.WriteString("const " + p.ConstDup + " /x?/\n")
+	}
 	r.block(&b, p.Pre, "")
 	for _, d := range p.Decos {
 		b.WriteString("def " + d.Name + " {\n")
@@ -462,6 +468,9 @@ func Render(p *Program, o RenderOpts) (string, error) {
 		b.WriteString("}\n")
 	}
 	r.block(&b, p.Body, "")
+	if p.ConstDup != "" {
+		b.WriteString("/q/ + " + p.ConstDup + " {\n}\n")
+	}
 	return b.String(), r.err
 }
 
